@@ -72,17 +72,7 @@ struct FC
     }
 };
 
-// run f on a thread with a big stack (parser constructors keep their state_analyzer in a local variable)
-template<class Fn>
-void on_big_stack(Fn fn, size_t bytes = size_t(1) << 30)
-{
-    pthread_attr_t at; pthread_attr_init(&at); pthread_attr_setstacksize(&at, bytes);
-    pthread_t th;
-    auto tramp = [](void* p) -> void* { (*static_cast<Fn*>(p))(); return nullptr; };
-    if (pthread_create(&th, &at, tramp, &fn) != 0) throw std::runtime_error("pthread_create failed");
-    pthread_join(th, nullptr);
-    pthread_attr_destroy(&at);
-}
+using eng::on_big_stack;
 
 // ----------------------------------------------------------------------------------------------
 // T36: 6 terms a..f, 6 usable nonterminals + PARK, 36 rule slots of fixed (arity, error positions, functor kind)
